@@ -25,8 +25,9 @@ type c10Table struct {
 }
 
 type c10Meta struct {
-	Tables []c10Table `json:"tables"`
-	Stmts  []string   `json:"stmts"`
+	Tables    []c10Table `json:"tables"`
+	Stmts     []string   `json:"stmts"`
+	StaleTemp string     `json:"stale_temp,omitempty"` // a temp control file a killed process left next to a table (and no lock file)
 }
 
 var words = []string{"alpha", "beta", "gamma", "delta", "eps", "zeta", "eta", "theta", "iota", "kappa", "la mb", "mu,nu", "x\"y", "omega"}
@@ -129,6 +130,14 @@ func (c10) Gen(seed uint64, tier string) *Scenario {
 				sc.Files = append(sc.Files, FileSpec{Name: strings.ReplaceAll(t.Name, "/", "_") + ".bak", HardTo: t.Name})
 			}
 		}
+	}
+	if rs := Sub(seed, "c10-stale-temp"); rs.Bool(0.06) {
+		// a killed process left its temp file next to the first table and somebody removed the lock file only:
+		// csvq gives up after its wait timeout (and touches nothing), or - whatever it does instead - goes
+		// through a commit that keeps the table complete at every instant
+		n := m.Tables[0].Name
+		m.StaleTemp = filepath.Join(filepath.Dir(n), "."+filepath.Base(n)+".temp")
+		sc.Files = append(sc.Files, FileSpec{Name: m.StaleTemp, Content: "left behind\n"})
 	}
 	// an untouched bystander
 	sc.Files = append(sc.Files, FileSpec{Name: "bystander.csv", Content: "a,b\n1,2\n"})
@@ -313,6 +322,22 @@ func (c10) Eval(t *testing.T, c *Case, dec func(int) *Decider) *Outcome {
 	o.Trace = tail(res.Log, 300)
 	if res.Hang != "" || res.LimitHit || res.BubbleErr != "" || res.Procs[0].Panic != "" {
 		o.viol(prop, "termination", "hang-or-panic", fmt.Sprintf("commit run did not terminate normally: %s %s %s", res.Hang, res.BubbleErr, res.Procs[0].Panic))
+		return o
+	}
+	var m0 c10Meta
+	mustUnJSON(sc.Meta["workload"], &m0)
+	if p := res.Procs[0]; p.ExitCode != 0 && m0.StaleTemp != "" && (strings.Contains(p.ErrType, "Timeout") || strings.Contains(p.ErrText, "deadline exceeded")) {
+		// the stale temp file keeps csvq out: it must have left every file as it was
+		o.Stats.probe("stale-temp-file:refused-after-wait-timeout")
+		for _, f := range sc.Files {
+			if f.Dir || f.LinkTo != "" || f.HardTo != "" {
+				continue
+			}
+			if got, ok := res.Final[f.Name]; !ok || got.Data != f.Content {
+				o.viol(prop, "old-or-new", "table-changed-by-refused-run", fmt.Sprintf("csvq gave up on a table with a stale temp file (%s), yet %s is not what it was", firstLine(p.ErrText), f.Name))
+			}
+		}
+		o.NonTrivial = true
 		return o
 	}
 	if res.Procs[0].ExitCode != 0 {
